@@ -26,11 +26,11 @@ theorem pairGeneral_conforms_G4 (m : Mode) (op : Op) (a b : Atom) (hg : grpG4 a 
   case b64.ua x s => exact pg_b64_ua m op s x h5
   case hex.hex x y =>
     have : pairGeneral m op (.hex x) (.hex y) = liftPy (pyBinop m op (.hex x) (.hex y) (6 + 2)) := by
-      simp [pairGeneral, iterCheck, iterMatch, categoryOK, cmpCategory, kindName, Atom.isDur, pyOp]
+      simp [pairGeneral, pairGeneralWith, iterCheck, iterMatch, categoryOK, cmpCategory, kindName, Atom.isDur, pyOp]
     rw [this, (bin_protocol m op x y 6).1]; rfl
   case b64.b64 x y =>
     have : pairGeneral m op (.b64 x) (.b64 y) = liftPy (pyBinop m op (.b64 x) (.b64 y) (6 + 2)) := by
-      simp [pairGeneral, iterCheck, iterMatch, categoryOK, cmpCategory, kindName, Atom.isDur, pyOp]
+      simp [pairGeneral, pairGeneralWith, iterCheck, iterMatch, categoryOK, cmpCategory, kindName, Atom.isDur, pyOp]
     rw [this, (bin_protocol m op x y 6).2]; rfl
 
 end EPV.Cmp
